@@ -56,7 +56,7 @@ def _variant(v, tag):
     if v == 3:
         return {a: List[int], "b": Optional[str]}, Dict[str, int], None
     if v == 4:   # a wide row (spill campaigns)
-        return {f"{a}_{i}": Dict[str, List[int]] for i in range(6)}, int, None
+        return {f"{a}_{i}": Dict[str, List[int]] for i in range(4)}, int, None
     raise ValueError(v)
 
 
@@ -109,6 +109,14 @@ def batch_rows(specs):
 # ------------------------------------------------------------------------------------------------
 # independent observation
 # ------------------------------------------------------------------------------------------------
+def read_table_or_fail(path, timeout=1.0):
+    """read_table, but an unreadable database is an observation (no rows, not ok), not a harness crash"""
+    try:
+        return read_table(path, timeout)
+    except sqlite3.Error as e:
+        return [("?unreadable", f"{type(e).__name__}: {e}", "", None, None)], False
+
+
 def read_table(path, timeout=5.0):
     """(rows in rowid order, ok) through a fresh sqlite3 connection; ok = integrity_check says ok and every
     created_at is a well-formed timestamp"""
@@ -201,7 +209,7 @@ class Rig:
                     blocker.rollback()
                     blocker.close()
             out["vm_steps"] = calls[0]
-            rows, ok = read_table(self.path)
+            rows, ok = read_table_or_fail(self.path)
             out["table"] = rows
             out["ok"] = ok
             return out
@@ -224,7 +232,7 @@ class Rig:
             except Exception as e:
                 return {"k": "raised", "err": f"{type(e).__name__}: {e}"}
         if kind == "table":
-            rows, ok = read_table(self.path)
+            rows, ok = read_table_or_fail(self.path)
             return {"k": "table", "table": rows, "ok": ok}
         raise ValueError(op)
 
